@@ -409,6 +409,221 @@ theorem join_log_names_distinct_concrete
     ∀ b, ((joinLogsFrom b ms).map (·.1)).Nodup :=
   join_log_names_distinct srcPrefix_prefix_free ms hnd
 
+/-! ### session 4: tables, metadata, `index_online`, logs of a round trip, empty parts -/
+
+/-- **Tables are retained** like logs: every table of the `i`-th input (processing order, 1-based)
+is in the joined file under `src-#i_<name>`, unchanged. -/
+theorem join_tables (m0 : Meas) (rest : List Meas) (i : Nat) (m : Meas)
+    (hm : (m0 :: rest)[i]? = some m) (nt : String × List String) (ht : nt ∈ m.tables) :
+    ∃ j, joinSorted (m0 :: rest) = some j ∧ (srcPrefix (i + 1) ++ nt.1, nt.2) ∈ j.tables := by
+  refine ⟨_, rfl, ?_⟩
+  simp only [joinTablesFrom]
+  have h' : ((m0 :: rest).map Meas.asTables)[i]? = some m.asTables := by
+    rw [List.getElem?_map, hm]; rfl
+  have := joinLogsFrom_mem m.asTables nt ht _ 1 i h'
+  rwa [Nat.add_comm 1 i] at this
+
+/-- the joined file has no table that does not stem from an input (names have the form
+`src-#j_<name>`), and the table names stay distinct -/
+theorem join_tables_only (ms : List Meas) (hnd : ∀ m ∈ ms, (m.tables.map (·.1)).Nodup) (b : Nat) :
+    ((joinTablesFrom b ms).map (·.1)).Nodup ∧
+    ∀ e ∈ joinTablesFrom b ms, ∃ j c, b ≤ j ∧ e.1 = srcPrefix j ++ c := by
+  refine ⟨?_, fun e he => joinLogsFrom_name_form _ b e he⟩
+  apply join_log_names_distinct_concrete
+  intro m hm
+  simp only [List.mem_map] at hm
+  obtain ⟨m', hm', rfl⟩ := hm
+  exact hnd m' hm'
+
+/-- **Metadata of the joined file.**  They are those of an input `m0` that is earliest in key
+order (acquisition time stamp, then run index): every other metadata key, the date and the time
+are copied from it; the run index is 1 and the event count is the total number of events. -/
+theorem join_meta (ms : List Meas) (h : 2 ≤ ms.length) :
+    ∃ j m0, join ms = some j ∧ m0 ∈ ms ∧ (∀ m ∈ ms, keyLe m0 m = true) ∧
+      j.cfg = m0.cfg ∧ j.day = m0.day ∧ j.sec = m0.sec ∧ j.run = 1 ∧
+      j.count = totalEvents ms := by
+  rw [join_eq ms h]
+  obtain ⟨hperm, hsorted, -⟩ := join_order ms
+  cases hs : sortInputs ms with
+  | nil =>
+    have := hperm.length_eq
+    rw [hs] at this
+    simp at this
+    omega
+  | cons m0 rest =>
+    rw [hs] at hperm hsorted
+    refine ⟨_, m0, rfl, hperm.subset (List.mem_cons_self ..), ?_, rfl, rfl, rfl, rfl, ?_⟩
+    · intro m hm
+      have hm' : m ∈ m0 :: rest := hperm.symm.subset hm
+      rcases List.mem_cons.mp hm' with rfl | hr
+      · rw [keyLe_iff]; exact Or.inr ⟨rfl, Nat.le_refl _⟩
+      · exact List.rel_of_pairwise_cons hsorted hr
+    · show totalEvents (m0 :: rest) = totalEvents ms
+      unfold totalEvents
+      exact (hperm.map _).sum_nat
+
+/-- **`index_online` is re-based** (observation O4): the first input's column is kept; every
+later input's column is shifted by (last value written so far + 1). -/
+theorem join_index_online (m0 : Meas) (rest : List Meas) :
+    ∃ j, joinSorted (m0 :: rest) = some j ∧
+      (.indexOnline ∈ j.feats → j.col .indexOnline =
+        rebaseAll (m0.col .indexOnline) (rest.map (fun m => m.col .indexOnline))) := by
+  refine ⟨_, rfl, ?_⟩
+  intro h
+  simp only at h ⊢
+  rw [foldl_appendMeas_indexOnline _ _ h]
+  simp [firstCols, h]
+
+/-- **`index_online` stays ordered**: if the first input's column is non-decreasing and every
+later input's column is non-decreasing with non-negative entries, the joined column is
+non-decreasing (every appended block starts above the last value written). -/
+theorem join_index_online_sorted (m0 : Meas) (rest : List Meas)
+    (h0 : (m0.col .indexOnline).Pairwise (· ≤ ·))
+    (hr : ∀ m ∈ rest, (m.col .indexOnline).Pairwise (· ≤ ·) ∧ ∀ v ∈ m.col .indexOnline, 0 ≤ v) :
+    ∃ j, joinSorted (m0 :: rest) = some j ∧
+      (.indexOnline ∈ j.feats → (j.col .indexOnline).Pairwise (· ≤ ·)) := by
+  obtain ⟨j, hj, hcol⟩ := join_index_online m0 rest
+  refine ⟨j, hj, fun h => ?_⟩
+  rw [hcol h]
+  apply rebaseAll_sorted _ _ h0
+  intro b hb
+  simp only [List.mem_map] at hb
+  obtain ⟨m, hm, rfl⟩ := hb
+  exact hr m hm
+
+/-- the re-based column starts with the first input's column and has one entry per event -/
+theorem rebase_shape (first : List Rat) (blocks : List (List Rat)) :
+    ∃ t, rebaseAll first blocks = first ++ t ∧ t.length = (blocks.map List.length).sum :=
+  rebaseAll_prefix blocks first
+
+/-- one step: the appended values are the input's values plus `last + 1` -/
+theorem rebase_step (acc c : List Rat) (l : Rat) (h : acc.getLast? = some l) :
+    rebaseStep acc c = acc ++ c.map (· + (l + 1)) := by
+  simp [rebaseStep, rebaseBase, h]
+
+/-- **Round trip, logs and tables.**  Joining the parts of a split (`0 < s < N`): every log and
+every table of the original is found once per part `i`, under `src-#i_src_<name>`, unchanged. -/
+theorem join_split_logs (x : Meas) (N s : Nat) (hs : 0 < s) (hsN : s < N) (i : Nat)
+    (hi : i < numFiles N s) :
+    ∃ j, join (splitMeas x N s) = some j ∧
+      (∀ nl ∈ x.logs, (srcPrefix (i + 1) ++ ("src_" ++ nl.1), nl.2) ∈ j.logs) ∧
+      (∀ nt ∈ x.tables, (srcPrefix (i + 1) ++ ("src_" ++ nt.1), nt.2) ∈ j.tables) := by
+  have hk := two_le_numFiles N s hs hsN
+  have hlen2 : 2 ≤ (splitMeas x N s).length := by simp [splitMeas, hk]
+  rw [join_eq _ hlen2, splitMeas_sorted]
+  obtain ⟨m0, rest, hparts⟩ : ∃ m0 rest, splitMeas x N s = m0 :: rest := by
+    cases h : splitMeas x N s with
+    | nil => rw [h] at hlen2; simp at hlen2
+    | cons a b => exact ⟨a, b, rfl⟩
+  have hget : (m0 :: rest)[i]? = some (partOf x N s i) := by
+    rw [← hparts]; simp [splitMeas, hi]
+  rw [hparts]
+  refine ⟨_, rfl, ?_, ?_⟩
+  · intro nl hl
+    obtain ⟨j, hj, hmem⟩ := join_logs m0 rest i _ hget ("src_" ++ nl.1, nl.2)
+      (by simp only [partOf, exportPrefixed, List.mem_map]; exact ⟨nl, hl, rfl⟩)
+    cases hj; exact hmem
+  · intro nt ht
+    obtain ⟨j, hj, hmem⟩ := join_tables m0 rest i _ hget ("src_" ++ nt.1, nt.2)
+      (by simp only [partOf, exportPrefixed, List.mem_map]; exact ⟨nt, ht, rfl⟩)
+    cases hj; exact hmem
+
+/-- round trip of `index_online`: the joined column is the re-basing of the parts' columns -/
+theorem join_split_index_online (x : Meas) (N s : Nat) (hs : 0 < s) (hsN : s < N)
+    (hinn : ∀ f ∈ x.innate, f ∈ x.avail) (hio : .indexOnline ∈ x.innate) :
+    ∃ j m0 rest, join (splitMeas x N s) = some j ∧ splitMeas x N s = m0 :: rest ∧
+      j.col .indexOnline =
+        rebaseAll (m0.col .indexOnline) (rest.map (fun m => m.col .indexOnline)) := by
+  have hk := two_le_numFiles N s hs hsN
+  have hlen2 : 2 ≤ (splitMeas x N s).length := by simp [splitMeas, hk]
+  rw [join_eq _ hlen2, splitMeas_sorted]
+  obtain ⟨m0, rest, hparts⟩ : ∃ m0 rest, splitMeas x N s = m0 :: rest := by
+    cases h : splitMeas x N s with
+    | nil => rw [h] at hlen2; simp at hlen2
+    | cons a b => exact ⟨a, b, rfl⟩
+  have hall : ∀ m ∈ m0 :: rest, ∃ i, m = partOf x N s i := by
+    intro m hm
+    rw [← hparts] at hm
+    simp only [splitMeas, List.mem_map] at hm
+    obtain ⟨i, _, rfl⟩ := hm
+    exact ⟨i, rfl⟩
+  obtain ⟨j, hj, hcol⟩ := join_index_online m0 rest
+  rw [hparts]
+  refine ⟨j, m0, rest, hj, rfl, hcol ?_⟩
+  have hfe : j.feats = joinFeatures m0 rest := by cases hj; rfl
+  rw [hfe, (prune_is_intersection m0 rest).2]
+  obtain ⟨i0, rfl⟩ := hall m0 (List.mem_cons_self ..)
+  refine ⟨hio, ?_⟩
+  intro m hm
+  obtain ⟨i, rfl⟩ := hall m (List.mem_cons_of_mem _ hm)
+  exact hinn _ hio
+
+/-- **Split either delivers all parts or nothing.**  `splitRun` succeeds iff no part is left
+without events; then the parts are the windows of `split_skip_partition`. -/
+theorem split_run_ok_iff (N s : Nat) (z0 zN : Bool) :
+    (splitRun N s z0 zN = .ok (splitSkip N s z0 zN) ↔ ∀ p ∈ splitSkip N s z0 zN, p ≠ []) ∧
+    (∀ parts, splitRun N s z0 zN = .ok parts → parts = splitSkip N s z0 zN) := by
+  unfold splitRun
+  constructor
+  · rw [← firstEmpty_none_iff]
+    cases h : firstEmpty (splitSkip N s z0 zN) <;> simp
+  · intro parts
+    cases h : firstEmpty (splitSkip N s z0 zN) <;> simp
+    intro hp; exact hp.symm
+
+/-- when `split` raises (`ValueError: Empty data object`), part `k` is the first one without
+events, the parts before it were exported completely — but only under their temporary names:
+`k + 1` temporaries are left and no output file exists. -/
+theorem split_run_error (N s : Nat) (z0 zN : Bool) (t : Nat)
+    (h : splitRun N s z0 zN = .error t) :
+    ∃ k, t = k + 1 ∧ k < numFiles N s ∧ (splitSkip N s z0 zN)[k]? = some [] ∧
+      ∀ i, i < k → ∃ p, (splitSkip N s z0 zN)[i]? = some p ∧ p ≠ [] := by
+  unfold splitRun at h
+  cases hf : firstEmpty (splitSkip N s z0 zN) with
+  | none => rw [hf] at h; simp at h
+  | some k =>
+    rw [hf] at h
+    simp only [SplitOutcome.error.injEq] at h
+    obtain ⟨h1, h2⟩ := firstEmpty_some _ k hf
+    refine ⟨k, h.symm, ?_, h1, h2⟩
+    have hlt : k < (splitSkip N s z0 zN).length := by
+      rcases Nat.lt_or_ge k (splitSkip N s z0 zN).length with hl | hl
+      · exact hl
+      · rw [List.getElem?_eq_none hl] at h1; simp at h1
+    simpa [splitSkip, split] using hlt
+
+/-- without skipped boundary events `split` never fails (for every `N` and `s > 0`) -/
+theorem split_run_no_skip (N s : Nat) (hs : 0 < s) :
+    splitRun N s false false = .ok (split N s) := by
+  have hsk : splitSkip N s false false = split N s := by
+    have hk : keepEvent N false false = fun _ => true := by funext j; simp [keepEvent]
+    have hf : ∀ w : List Nat, w.filter (fun _ => true) = w := by
+      intro w; induction w with
+      | nil => rfl
+      | cons a t ih => simp
+    simp only [splitSkip, hk, hf]
+    exact List.map_id' _
+  have hne : ∀ p ∈ splitSkip N s false false, p ≠ [] := by
+    rw [hsk]
+    intro p hp
+    simp only [split, List.mem_map, List.mem_range] at hp
+    obtain ⟨i, hi, rfl⟩ := hp
+    exact window_ne_nil N s i hs hi
+  rw [← hsk]
+  exact ((split_run_ok_iff N s false false).1).2 hne
+
+/-- a failing split needs a skipped boundary event -/
+theorem split_run_error_needs_skip (N s : Nat) (hs : 0 < s) (z0 zN : Bool) (t : Nat)
+    (h : splitRun N s z0 zN = .error t) : z0 = true ∨ zN = true := by
+  cases z0 <;> cases zN <;> simp_all [split_run_no_skip N s hs]
+
+example : splitRun 5 2 false true = .error 3 := by decide
+example : splitRun 4 1 true false = .error 1 := by decide
+example : splitRun 3 2 false true = .error 2 := by decide
+example : splitRun 5 2 true false = .ok [[1], [2, 3], [4]] := by decide
+example : splitRun 5 1 true true = .error 1 := by decide
+example : rebaseAll [5, 7] [[0, 3], [2]] = [5, 7, 8, 11, 14] := by decide +kernel
+
 /-! ### non-vacuity -/
 
 /-- two inputs: `a` taken at 12:00:00, `b` at 12:00:00.5 -/
